@@ -17,7 +17,7 @@ var (
 	Methods      = []string{"GET", "POST", "get"}
 	CookieNames  = []string{"c", "d"}
 	Hosts        = []string{"example.com", "a.example.com", "b.example.com", "a.b.example.com", "other.org"}
-	HostPatterns = []string{"example.com", "a.example.com", "*.example.com", "*.*.example.com", "*.org", "a.*.com", "b.example.com"}
+	HostPatterns = []string{"example.com", "a.example.com", "*.example.com", "*.*.example.com", "*.org", "a.*.com", "b.example.com", "example.com:8080", "*.example.com:8080", "[::1]:8080"}
 	Paths        = []string{"/", "/x", "/y", "/", "/x", "/y", "/~user", "/wiki/Foo_(bar)", "/v1/items/*", "/a b"}
 	Schemes      = []string{"http", "https"}
 )
